@@ -6,6 +6,7 @@ import (
 	"os"
 	"sort"
 	"strings"
+	"time"
 
 	"github.com/couchbase/moss"
 
@@ -326,8 +327,60 @@ func (r *Runner) closeHandle(h *Handle) {
 }
 
 func (r *Runner) watchdog(what string) bool {
+	if d := r.persisterAsleepOnWork(); d != "" {
+		r.viol("progress", "persister-waits-although-a-dirty-base-is-pending", "", "watchdog ("+what+"): "+d)
+		return false
+	}
 	r.Res.Inconclusive = "watchdog: " + what
 	return false
+}
+
+// persisterAsleepOnWork tells a stuck persister from a slow machine when a
+// directed wait has run into its watchdog: the persister goroutine sits in
+// the condition-variable wait of runPersister itself (not in a hook, where
+// the director would be holding it, and not inside a lower-level update),
+// unchanged over two dumps, while the collection's own gauges say that a
+// dirty base is waiting to be persisted.  Nothing but a new hand-over or
+// Close can wake it from there, and the merger cannot hand over while the
+// base is occupied - so this is not a matter of time.
+func (r *Runner) persisterAsleepOnWork() string {
+	e := r.E
+	if e.Coll == nil || e.Cfg.Backing == "none" {
+		return ""
+	}
+	find := func() (GInfo, bool) {
+		for _, g := range Goroutines() {
+			if !strings.Contains(g.Text, "moss.(*collection).runPersister") || strings.Contains(g.Text, "(*Director).at") {
+				continue
+			}
+			lines := strings.Split(g.Text, "\n")
+			for i, ln := range lines {
+				if strings.HasPrefix(ln, "sync.(*Cond).Wait") {
+					// the caller of Wait is two lines further down
+					if i+2 < len(lines) && strings.HasPrefix(lines[i+2], "github.com/couchbase/moss.(*collection).runPersister") {
+						return g, true
+					}
+				}
+			}
+		}
+		return GInfo{}, false
+	}
+	a, ok := find()
+	if !ok {
+		return ""
+	}
+	time.Sleep(300 * time.Millisecond)
+	b, ok := find()
+	if !ok || a.ID != b.ID {
+		return ""
+	}
+	var st *moss.CollectionStats
+	Safe(func() error { st, _ = e.Coll.Stats(); return nil })
+	if st == nil || (st.CurDirtyBaseOps == 0 && st.CurDirtyBaseSegments == 0) {
+		return ""
+	}
+	return fmt.Sprintf("the persister goroutine is asleep in runPersister's own wait while CurDirtyBaseSegments=%d CurDirtyBaseOps=%d (OnError reports so far: %d, last: %q)",
+		st.CurDirtyBaseSegments, st.CurDirtyBaseOps, e.BgErrCount(), e.LastBgErr())
 }
 
 func (r *Runner) checkRes(res MergerResult, what string) bool {
